@@ -2,11 +2,15 @@
 (* Every document over a six-character alphabet (1/2/3/4-byte characters,   *)
 (* LF, CR) up to MaxLen: the specification's own properties, and one TABLE  *)
 (* line per document with every conversion the implementation is asked.     *)
-EXTENDS LspPos, Json
-CONSTANT MaxLen
+(* Mode "all": every document up to MaxLen; Mode "file": the documents of    *)
+(* the ndjson file named by DOCS ({doc: [code points]}).                    *)
+EXTENDS LspPos, Json, IOUtils
+CONSTANTS MaxLen, Mode
+Docs == IF Mode = "file" THEN ndJsonDeserialize(IOEnv.DOCS) ELSE <<>>
 Alpha == {97, 233, 8364, 128512, 10, 13}
 VARIABLE d
-Init == \E n \in 0..MaxLen : d \in [1..n -> Alpha]
+Init == IF Mode = "file" THEN \E i \in 1..Len(Docs) : d = Docs[i].doc
+        ELSE \E n \in 0..MaxLen : d \in [1..n -> Alpha]
 Next == UNCHANGED d
 Props == RoundTrip(d) /\ WholeCovers(d) /\ ClampMonotone(d) /\ OnBoundary(d)
 Offs == {o \in 0..(ByteLen(d) + 2) : o \in Boundaries(d) \/ o > ByteLen(d)}
